@@ -44,6 +44,7 @@ type cfCombo struct {
 type cfResp struct {
 	Status   int   `json:"status"`
 	Warnings []int `json:"warnings"`
+	Subject  bool  `json:"subject"` // OCI-Subject header present
 }
 
 var cfWarn = []string{"first warning", "second: warning"}
@@ -105,7 +106,7 @@ type cfFixture struct {
 }
 
 func newCfFixture(seed int64, referrers bool) (*cfFixture, error) {
-	cat, err := BuildCatalogue(CatOpts{Seed: seed, Contents: []string{"m1", "m2", "a1", "b3"}, Algs: []string{"sha256"}, Repos: []string{"c19/repo"}, NTags: 3})
+	cat, err := BuildCatalogue(CatOpts{Seed: seed, Contents: []string{"m1", "m2", "a1", "a2", "a5", "b3"}, Algs: []string{"sha256"}, Repos: []string{"c19/repo"}, NTags: 3})
 	if err != nil {
 		return nil, err
 	}
@@ -170,7 +171,7 @@ func (fx *cfFixture) run(do cfClient, emit func(class string, r cfResp)) {
 	}
 	one := func(class, m, t string, hdr map[string]string, body []byte) (int, http.Header) {
 		st, h, _ := do(m, t, hdr, body)
-		emit(class, cfResp{Status: st, Warnings: warn(h)})
+		emit(class, cfResp{Status: st, Warnings: warn(h), Subject: h.Get("OCI-Subject") != ""})
 		return st, h
 	}
 	one("ping", "GET", "/v2/", nil, nil)
@@ -179,6 +180,8 @@ func (fx *cfFixture) run(do cfClient, emit func(class string, r cfResp)) {
 	one("tagsList", "GET", base+"/tags/list", nil, nil)
 	one("referrersGet", "GET", base+"/referrers/"+real("m1"), nil, nil)
 	one("manifestPut", "PUT", base+"/manifests/"+fx.cat.TagReal["t2"], map[string]string{"Content-Type": types.MediaTypeOCI1Manifest}, fx.cat.C["m1"].Bytes)
+	one("artifactPutImage", "PUT", base+"/manifests/"+real("a2"), map[string]string{"Content-Type": types.MediaTypeOCI1Manifest}, fx.cat.C["a2"].Bytes)
+	one("artifactPutIndex", "PUT", base+"/manifests/"+real("a5"), map[string]string{"Content-Type": types.MediaTypeOCI1ManifestList}, fx.cat.C["a5"].Bytes)
 	st, h := one("uploadPost", "POST", base+"/blobs/uploads/", nil, nil)
 	loc := base + "/blobs/uploads/nosuchsession?state=" + stateTok(0)
 	if st == 202 && h.Get("Location") != "" {
@@ -487,15 +490,20 @@ func cfRateLimit(inFile, outFile string) int {
 				}
 				req := httptest.NewRequest("GET", "/v2/", nil)
 				// the address is taken from X-Forwarded-For (first element) or from RemoteAddr without the port
-				switch (bi + si) % 3 {
-				case 0:
-					req.RemoteAddr = "10.0.0." + st.A[1:] + ":4" + fmt.Sprint(1000+si)
-				case 1:
-					req.RemoteAddr = "192.0.2.9:1"
-					req.Header.Set("X-Forwarded-For", "10.0.0."+st.A[1:])
-				default:
-					req.RemoteAddr = "192.0.2.9:1"
-					req.Header.Set("X-Forwarded-For", "10.0.0."+st.A[1:]+", 172.16.0.1")
+				if bi%2 == 1 {
+					// IPv6 clients connecting directly: the address is everything before the last colon
+					req.RemoteAddr = "[2001:db8::" + st.A[1:] + "]:4" + fmt.Sprint(1000+si)
+				} else {
+					switch (bi + si) % 3 {
+					case 0:
+						req.RemoteAddr = "10.0.0." + st.A[1:] + ":4" + fmt.Sprint(1000+si)
+					case 1:
+						req.RemoteAddr = "192.0.2.9:1"
+						req.Header.Set("X-Forwarded-For", "10.0.0."+st.A[1:])
+					default:
+						req.RemoteAddr = "192.0.2.9:1"
+						req.Header.Set("X-Forwarded-For", "10.0.0."+st.A[1:]+", 172.16.0.1")
+					}
 				}
 				t := time.Since(start).Milliseconds()
 				rec := httptest.NewRecorder()
